@@ -103,4 +103,8 @@ Definition run_entry_gen (l : elevel) (m : emode) (t : etype) (s : str) (c : ctx
       end
   end.
 
+(* a tree-level entry point applied to ANY tree (also one built by hand through the public constructors) *)
+Definition run_node_entry_gen (m : emode) (t : etype) (n : node) (c : ctx) (lg : log) : outcome value * ctx * log :=
+  run_wrapper 4 LvNode (entry_name m t) (InNode n) c lg.
+
 End WithOracle.
